@@ -70,6 +70,9 @@ func newSchema(table string, master []sqliteMaster) (*Schema, error) {
 		return nil, errors.New("unsupported CREATE TABLE statement")
 	}
 
+	if err := validCreateTable(ct); err != nil {
+		return nil, err
+	}
 	st := newCreateTable(ct)
 
 	for _, m := range master {
@@ -84,6 +87,43 @@ func newSchema(table string, master []sqliteMaster) (*Schema, error) {
 	}
 
 	return st, nil
+}
+
+// SQLite only stores a table definition when every column is there once, and
+// the PRIMARY KEY and UNIQUE constraints are about existing columns.
+func validCreateTable(ct sql.CreateTableStmt) error {
+	// SQLite names are case insensitive for ASCII only
+	lower := func(s string) string {
+		return strings.Map(func(r rune) rune {
+			if r >= 'A' && r <= 'Z' {
+				return r + 'a' - 'A'
+			}
+			return r
+		}, s)
+	}
+	cols := map[string]struct{}{}
+	for _, c := range ct.Columns {
+		n := lower(c.Name)
+		if _, ok := cols[n]; ok {
+			return ErrInvalidDef
+		}
+		cols[n] = struct{}{}
+	}
+	for _, c := range ct.Constraints {
+		var ics []sql.IndexedColumn
+		switch c := c.(type) {
+		case sql.TablePrimaryKey:
+			ics = c.IndexedColumns
+		case sql.TableUnique:
+			ics = c.IndexedColumns
+		}
+		for _, ic := range ics {
+			if _, ok := cols[lower(ic.Column)]; !ok {
+				return ErrInvalidDef
+			}
+		}
+	}
+	return nil
 }
 
 // transform a `create table` statement into a Schema, which knows which
